@@ -145,6 +145,15 @@ func checkPackage(ctx *Ctx, fd protoreflect.FileDescriptor, tick func(what strin
 		return fmt.Errorf("file %s is not the one registered under its path", fd.Path())
 	}
 	tick("file registered")
+	for i := 0; i < fd.Imports().Len(); i++ {
+		imp := fd.Imports().Get(i)
+		if imp.FileDescriptor == nil || imp.IsPlaceholder() {
+			return fmt.Errorf("file %s: its import %s is an unresolved placeholder", fd.Path(), imp.Path())
+		}
+		if reg, err := protoregistry.GlobalFiles.FindFileByPath(imp.Path()); err != nil || reg != imp.FileDescriptor {
+			return fmt.Errorf("file %s: its import %s is not the file the registry holds", fd.Path(), imp.Path())
+		}
+	}
 	for _, md := range allMsgs(fd) {
 		name := md.FullName()
 		mt, err := protoregistry.GlobalTypes.FindMessageByName(name)
@@ -185,14 +194,49 @@ func checkPackage(ctx *Ctx, fd protoreflect.FileDescriptor, tick func(what strin
 			return fmt.Errorf("%s: validity of New()/Zero() is wrong", name)
 		}
 		tick("go type identities " + string(name))
-		// field descriptors used by Range are the registry's
+		// field descriptors used by Range are the registry's, and every type a
+		// field refers to is the registry's own descriptor object (no placeholder)
 		fds := md.Fields()
 		for i := 0; i < fds.Len(); i++ {
 			fdd := fds.Get(i)
 			if fdd.ContainingMessage() != md {
 				return fmt.Errorf("%s.%s: ContainingMessage is a different object", name, fdd.Name())
 			}
+			check := func(what string, d protoreflect.Descriptor) error {
+				if d == nil {
+					return nil
+				}
+				if ph, ok := d.(interface{ IsPlaceholder() bool }); ok && ph.IsPlaceholder() {
+					return fmt.Errorf("%s.%s: its %s type %s is a placeholder descriptor (never linked)", name, fdd.Name(), what, d.FullName())
+				}
+				reg, err := protoregistry.GlobalFiles.FindDescriptorByName(d.FullName())
+				if err != nil {
+					return fmt.Errorf("%s.%s: its %s type %s is not in GlobalFiles: %v", name, fdd.Name(), what, d.FullName(), err)
+				}
+				if reg != d {
+					return fmt.Errorf("%s.%s: its %s type %s is not the descriptor object the registry holds", name, fdd.Name(), what, d.FullName())
+				}
+				return nil
+			}
+			var ferr error
+			switch {
+			case fdd.IsMap():
+				if m := fdd.MapValue().Message(); m != nil {
+					ferr = check("map value message", m)
+				}
+				if e := fdd.MapValue().Enum(); e != nil && ferr == nil {
+					ferr = check("map value enum", e)
+				}
+			case fdd.Message() != nil:
+				ferr = check("message", fdd.Message())
+			case fdd.Enum() != nil:
+				ferr = check("enum", fdd.Enum())
+			}
+			if ferr != nil {
+				return ferr
+			}
 		}
+		tick("field type linkage " + string(name))
 	}
 	for _, ed := range allEnums(fd) {
 		et, err := protoregistry.GlobalTypes.FindEnumByName(ed.FullName())
